@@ -39,6 +39,16 @@ ASSUMPTIONS = [
     "default session (ISO 14229-1: `10 01` is mandatory) is proved to be such a run",
     "OEM hooks are represented by the list of 2-byte requests they send (send_raw through request_unsafe, reply ignored, an "
     "unanswered one raises MissingResponse); with the base ECU class --with-hooks repeats the request once on conditionsNotCorrect",
+    "replies the client refuses (Ans.illegal switched: helpers.parse_pdu raises IllegalResponse - NRC outside UDSErrorCodes, truncated "
+    "positive reply, reply of another service, positive reply echoing another sub-function; the ECU may have switched session or not) "
+    "are modelled as answers to probes, to stack-recovery requests, to the hooked attempt and to the ECUReset of --reset; in the "
+    "stateful model also to hook requests. Not modelled: which of the four kinds it is (the scanner does not distinguish them), what "
+    "ECU.update_state makes of the CONTENT of a refused reply (`62 f1 86 03` / `50 07 ..` change the client-side session: not compared "
+    "on cases with refused replies), refused replies to the pings of wait_for_ecu (the loop goes on like after a missing reply, "
+    "but 0.5 s earlier: the ping budget is exact for missing replies only; the harness never garbles pings)",
+    "scan_never_gives_up / scan_exact and their corollaries assume ResetLegal: with --reset the ECUReset is not answered with a "
+    "refused reply (otherwise the IllegalResponse leaves main: modelled as crashed, witnessed, tied); completeness holds with "
+    "refused probe replies as long as the scan does not give up (a refused reply inside a stack recovery is exit 1)",
 ]
 
 NRCS = [0x10, 0x11, 0x13, 0x22, 0x22, 0x24, 0x31, 0x33, 0x33, 0x7E, 0x7E, 0x7F, 0x21]
@@ -47,6 +57,22 @@ REQ_CAP = 400_000  # a scan that puts more requests than this on the wire is rep
 
 class TooManyRequests(BaseException):
     pass
+
+
+REFUSED_KINDS = "uvtore"
+
+
+def refused_reply(kind, req):
+    """a reply to `req` that `helpers.parse_pdu` refuses (IllegalResponse): u/v = negative response with a code outside
+    UDSErrorCodes (`7f 10 80`, `7f 10 23`: MalformedResponse), t = truncated positive reply (`50`), o/r = reply of another
+    service (`7f 22 31`, `62 f1 86 03`: RequestResponseMismatch), e = positive reply echoing another sub-function (`50 07 ..`
+    to `10 03`; a raw hook request is only matched by service id, so there it becomes u)"""
+    sid, sub = req[0], req[1]
+    if kind == "e" and sid not in (0x10, 0x11):
+        kind = "u"
+    return {"u": bytes([0x7F, sid, 0x80]), "v": bytes([0x7F, sid, 0x23]), "t": bytes([sid + 0x40]),
+            "o": bytes([0x7F, 0x22, 0x31]), "r": bytes.fromhex("62f18603"),
+            "e": bytes([sid + 0x40, (sub ^ 0x04) & 0x7F]) + (bytes.fromhex("003201f4") if sid == 0x10 else b"")}[kind]
 
 
 # ------------------------------------------------------------------------------------------------------------
@@ -117,8 +143,14 @@ def _load_impl():
                 if self.hooked:
                     self.hooked_for = data[1] & 0x7F
                 edges = self.edges_h if (self.hooked and self.pre) else self.edges
-                r = self._answer(sid, edges.get((self.cur, data[1] & 0x7F), "n18"))
-                if r is not None and not (isinstance(r, bytes) and r[2] == 0x21):
+                a = edges.get((self.cur, data[1] & 0x7F), "n18")
+                if a[0] == "i":     # a reply the client refuses; `i1.`: the ECU has switched session nevertheless
+                    r = refused_reply(a[2], bytes(data))
+                    if a[1] == "1":
+                        self.cur = data[1] & 0x7F
+                else:
+                    r = self._answer(sid, a)
+                if r is not None and not (isinstance(r, bytes) and len(r) == 3 and r[0] == 0x7F and r[2] == 0x21):
                     self.hooked = False   # an unanswered / busy hooked attempt is retransmitted under the same conditions
                 if r == "pos":
                     self.cur = data[1] & 0x7F
@@ -127,7 +159,12 @@ def _load_impl():
                     r = None
             elif sid == 0x11 and len(data) == 2:
                 self.hooked = False
-                r = self._answer(sid, self.rst)
+                if self.rst[0] == "i":
+                    r = refused_reply(self.rst[2], bytes(data))
+                    if self.rst[1] == "1":
+                        self.cur = 1
+                else:
+                    r = self._answer(sid, self.rst)
                 if r == "pos":
                     self.cur = 1
                     self.booting = self.boot
@@ -184,12 +221,24 @@ def _load_impl():
                 if a == "p":
                     self.cur, self.count = u, 0
                     return "pos"
+                if a[0] == "i":
+                    if a[1] == "1":
+                        self.cur, self.count = u, 0
+                    else:
+                        self.count += 1
+                    return refused_reply(a[2], bytes(data))
                 self.count += 1
                 return None if a == "s" else int(a[1:])
             if sid == 0x11 and len(data) == 2:
                 if self.rst == "p":
                     self.cur, self.count, self.unlocked = 1, 0, False
                     return "pos"
+                if self.rst[0] == "i":
+                    if self.rst[1] == "1":
+                        self.cur, self.count, self.unlocked = 1, 0, False
+                    else:
+                        self.count += 1
+                    return refused_reply(self.rst[2], bytes(data))
                 self.count += 1
                 return None if self.rst == "s" else int(self.rst[1:])
             if is_ping:
@@ -214,6 +263,12 @@ def _load_impl():
                 if f == "b":
                     self.queue = [bytes([0x7F, sid, 0x21])]
                     return len(data)
+                if f in ("i", "g") and sid != 0x3E:
+                    # i: a refused reply instead of handling the request; g: the request is handled, the reply is garbled
+                    if f == "g":
+                        self._app(data, idle_ms)
+                    self.queue = [refused_reply(REFUSED_KINDS[len(self.log) % len(REFUSED_KINDS)], bytes(data))]
+                    return len(data)
             code = data[1] & 0x7F if sid == 0x10 else data[1] if sid == 0x11 else 0 if sid == 0x3E else (data[0] << 8 | data[1])
             npend = (self.cur + code) % (self.pn + 1)
             r = self._app(data, idle_ms)
@@ -221,6 +276,8 @@ def _load_impl():
             if r == "pos":
                 self.queue.append(bytes([0x50, data[1], 0x00, 0x32, 0x01, 0xF4]) if sid == 0x10 else
                                   bytes([0x51, data[1]]) if sid == 0x11 else bytes([0x7E, 0x00]))
+            elif isinstance(r, bytes):
+                self.queue.append(r)
             elif r is not None:
                 self.queue.append(bytes([0x7F, sid, r]))
             return len(data)
@@ -419,7 +476,8 @@ def run_impl(case, dbfile=None):
     except TooManyRequests:
         status = "cap"
     except Exception as e:  # anything the scanner lets escape
-        status = "exc:" + type(e).__name__
+        from gallia.services.uds.core.exception import IllegalResponse
+        status = "exc:" + ("IllegalResponse" if isinstance(e, IllegalResponse) else type(e).__name__)
     pos_rows = [r for r in sc.db_handler.rows]
     return {
         "exit": status,
@@ -540,7 +598,7 @@ def parse_model(line):
         return out
 
     return {
-        "exit": kv["exit"],
+        "exit": "exc:IllegalResponse" if kv.get("end") == "2" else kv["exit"],
         "result": [int(x) for x in kv["result"].split(",")] if kv["result"] != "-" else [],
         "rows": rows(kv["trans"], 2) + rows(kv["neg"], 3),
         "reqs": kv["reqs"].split(",") if kv["reqs"] else [],
@@ -555,6 +613,14 @@ def parse_spec(line):
     return {"reach": [int(x) for x in kv["reach"].split(",")] if kv["reach"] != "-" else [],
             "ident": [int(x) for x in kv["ident"].split(",")] if kv["ident"] != "-" else [],
             "bad": [] if kv["bad"] == "-" else kv["bad"].split(";")}
+
+
+def has_refused(case):
+    """the case contains a reply the client refuses.  ECU.update_state is applied to the content of a refused reply as well
+    (`62 f1 86 03` makes the client believe session 3, `50 07 ..` session 7): the client-side session after such a reply is
+    not modelled and not compared"""
+    return (any(v[0] == "i" for v in case["g"].values()) or any(v[0] == "i" for v in (case.get("gh") or {}).values())
+            or case["rst"][0] == "i" or any(f in ("i", "g") for f in case.get("fl", ())))
 
 
 def in_class(case):
@@ -608,6 +674,11 @@ def judge(case, impl, model, spec):
             out.append(("exit-1-in-class", "scan gave up (exit 1) although every session can re-enter the default session", True))
         if impl["result"]:
             out.append(("exit-1-with-report", f"exit 1 but reported {impl['result']}", True))
+    elif impl["exit"] == "exc:IllegalResponse" and case["reset"] and case["rst"][0] == "i":
+        # the ECU answers the ECUReset of --reset with a reply the client refuses: outside the property's ECU class; the
+        # exception leaves main (modelled: `crashed`), nothing may be reported
+        if impl["result"] or impl["rows"]:
+            out.append(("refused-reset-with-report", f"the scan ended with {impl['exit']} but reported {impl['result']} / wrote {impl['rows']}", True))
     else:
         out.append(("escaped:" + impl["exit"], f"the scan ended with {impl['exit']}", in_class(case)))
     # --- the tie: model vs implementation ------------------------------------------------------------------
@@ -616,7 +687,9 @@ def judge(case, impl, model, spec):
     if impl.get("db_lookups"):
         out.append(("tie:db-consulted", f"the scan looked up stored session transitions {impl['db_lookups']} times; the model's "
                                         "set_session calls carry use_db=False", False))
-    for f, mf in (("exit", "exit"), ("result", "result"), ("rows", "rows"), ("reqs", "reqs"), ("ecu_session", "cur"), ("client_session", "cur")):
+    for f, mf in (("exit", "exit"), ("result", "result"), ("rows", "rows"), ("reqs", "reqs"), ("ecu_session", "cur"), ("client_session", "client")):
+        if f == "client_session" and has_refused(case):
+            continue
         if impl[f] != model[mf]:
             if f == "reqs":
                 i = next((k for k, (a, b) in enumerate(zip(impl[f], model[mf])) if a != b), min(len(impl[f]), len(model[mf])))
@@ -631,6 +704,8 @@ def judge(case, impl, model, spec):
 
 def fault_runs_bounded(case):
     """no request meets more than max_retry faults in a row (then its last transmission is handled)"""
+    if any(f in ("i", "g") for f in case.get("fl", ())) or any(v[0] == "i" for v in case["g"].values()) or case["rst"][0] == "i":
+        return False    # refused replies: a stack recovery that meets one ends the scan; only soundness is claimed
     run = 0
     for f in case.get("fl", ()):
         run = run + 1 if f in ("s", "b") else 0
@@ -709,12 +784,18 @@ def judge_s(case, impl, model, spec):
                                            "and no request met more than max_retry faults", True))
         if impl["result"]:
             out.append(("exit-1-with-report", f"exit 1 but reported {impl['result']}", True))
+    elif impl["exit"] == "exc:IllegalResponse" and case["reset"] and has_refused(case):
+        # a refused reply to the ECUReset of --reset leaves main (modelled: `crashed`; the exit is compared below)
+        if impl["result"] or impl["rows"]:
+            out.append(("refused-reset-with-report", f"the scan ended with {impl['exit']} but reported {impl['result']}", True))
     else:
         out.append(("escaped:" + impl["exit"], f"the scan ended with {impl['exit']}", False))
     if model["track"] != "1" and fam != "s3":
         out.append(("model-state-tracking", "model probes outside the stack top", False))
     for f, mf in (("exit", "exit"), ("result", "result"), ("rows", "rows"), ("reqs", "reqs"), ("ecu_session", "cur"),
                   ("client_session", "client")):
+        if f == "client_session" and has_refused(case):
+            continue
         if impl[f] != model[mf]:
             if f == "reqs":
                 i = next((k for k, (a, b) in enumerate(zip(impl[f], model[mf])) if a != b), min(len(impl[f]), len(model[mf])))
@@ -736,7 +817,7 @@ def rand_case_s(rng):
     g, ids = rand_graph(rng, shape)
     g = decorate(rng, g, ids, rng.random() < 0.9)
     kind = rng.choice(["s3-count", "s3-time", "s3-both", "locked", "locked", "pending", "faults", "faults", "pending+faults",
-                       "locked+faults", "s3+faults"])
+                       "locked+faults", "s3+faults", "refused-faults", "refused-faults", "refused-edges+faults"])
     reset = rng.choice([None, None, None, None, 1, 3])
     pre, post = (), ()
     hooks = rng.random() < 0.3
@@ -764,13 +845,21 @@ def rand_case_s(rng):
         case["lk"] = sorted(rng.sample(pos, min(len(pos), rng.randint(1, 3))))
     if "pending" in kind or rng.random() < 0.15:
         case["pn"] = rng.choice([1, 2, 3, 5])
+    if kind == "refused-edges+faults":
+        for _ in range(rng.randint(1, 3)):
+            a, b = rng.choice(ids), rng.choice(ids[1:] + [rng.randint(2, 0x7F)])
+            if case["g"].get(f"{a}>{b}") != "p" or rng.random() < 0.3:
+                case["g"][f"{a}>{b}"] = refused_val(rng)
+        if reset and rng.random() < 0.2:
+            case["rst"] = refused_val(rng)
     if "faults" in kind:
         n = rng.choice([3, 10, 40, 150, 400])
         p = rng.choice([0.05, 0.15, 0.3])
+        alphabet = ["s", "b", "i", "g", "i", "g"] if kind.startswith("refused") else ["s", "b"]
         fl = []
         for _ in range(n):
-            f = rng.choice(["s", "b"]) if rng.random() < p else "-"
-            if f != "-" and rng.random() < 0.8:   # mostly within the retry bound
+            f = rng.choice(alphabet) if rng.random() < p else "-"
+            if f in ("s", "b") and rng.random() < 0.8:   # mostly within the retry bound
                 run = 0
                 for x in reversed(fl):
                     if x == "-":
@@ -918,6 +1007,53 @@ def decorate(rng, g, ids, reentry):
     return g
 
 
+def refused_val(rng):
+    return f"i{rng.choice('01')}{rng.choice(REFUSED_KINDS)}"
+
+
+def add_refused(rng, case, ids):
+    """some edges (probes of reachable sessions, default re-entry, hooked attempts), and sometimes the ECUReset, are
+    answered with a reply the client refuses - having switched session or not"""
+    g = case["g"]
+    extra = ids + [rng.randint(2, 0x7F)]
+    for _ in range(rng.randint(1, 4)):
+        a, b = rng.choice(ids), rng.choice(extra)
+        k = f"{a}>{b}"
+        r = rng.random()
+        if b == 1 and r < 0.8:
+            continue            # mostly keep the default re-entry (otherwise the scan just exits 1)
+        if g.get(k) == "p" and r < 0.5:
+            continue
+        g[k] = refused_val(rng)
+    if case.get("gh") is not None:
+        for k in [k for k, v in case["g"].items() if v == "n34"]:
+            if rng.random() < 0.5:
+                case["gh"][k] = refused_val(rng)
+    if case["reset"] and rng.random() < 0.25:
+        case["rst"] = refused_val(rng)
+    return case
+
+
+def rand_case_refused(rng):
+    shape = rng.choice(["density", "chain", "cycle", "deep-only", "deep-only"])
+    g, ids = rand_graph(rng, shape)
+    g = decorate(rng, g, ids, rng.random() < 0.9)
+    gh, pre, post = None, (), ()
+    with_class = rng.random() < 0.35
+    if with_class:
+        g, gh, pre, post = hook_class(rng, g, ids)
+    reset = rng.choice([None, None, 1, 3])
+    skip = [] if rng.random() < 0.7 else rng.sample(ids[1:], 1)
+    case = mk_case(g, rng.choice([1, 2, 3, 4]), skip, thorough=rng.random() < 0.3, reset=reset,
+                   hooks=rng.random() < (0.8 if with_class else 0.25), max_retry=rng.choice([0, 0, 1, 2]),
+                   rst=rng.choice(["p", "p", "p", "n34", "s"]), gh=gh, pre=pre, post=post,
+                   boot=rng.choice([0, 0, 1, 2]) if reset else 0)
+    add_refused(rng, case, ids)
+    if case["thorough"] and n_walks(case, 30) > 30:
+        case["thorough"] = False
+    return case, shape + ("+hook-class" if with_class else "")
+
+
 def rand_case(rng, widened=False):
     shape = rng.choice(["density", "density", "chain", "cycle", "islands", "deep-only"])
     g, ids = rand_graph(rng, shape)
@@ -971,6 +1107,7 @@ def evaluate(ctx, cases, procs=1):
         m2 = parse_model(l)
         if any(m2[f] != models[k][f] for f in ("exit", "result", "rows", "reqs", "cur")):
             models[k]["twin"] = {f: m2[f] for f in ("exit", "result", "rows", "cur")} | {"reqs": m2["reqs"][:40]}
+        models[k]["client"] = m2["client"]   # the graph model has no client-side session; the stateful twin has
     return impls, models, specs
 
 
@@ -1091,6 +1228,23 @@ def run(ctx):
     add(mk_case({(1, 1): "p", (1, 2): "p", (2, 1): "p", (2, 2): "p", (2, 0x7F): "p", (0x7F, 1): "p", (0x7F, 2): "p",
                  (1, 3): "n34", (2, 3): "n126", (1, 4): "s", (1, 5): "n51", (2, 5): "p", (5, 1): "p"}, 4,
                 hooks=True, max_retry=1), "corner:mixed-answers")
+    # 0a. replies the client refuses (parse_pdu raises IllegalResponse), the ECU having switched session or not: as a probe
+    #     answer, inside the stack recovery, as the hooked attempt, as the answer to the ECUReset of --reset
+    base = {(1, 1): "p", (1, 2): "p", (2, 1): "p", (3, 1): "p", (3, 4): "p", (4, 1): "p"}
+    for kd in REFUSED_KINDS:
+        for sw in "01":
+            add(mk_case({**base, (1, 3): f"i{sw}{kd}"}, 3), f"refused:corner:probe:{kd}")
+    add(mk_case({**base, (1, 3): "i1u", (3, 1): "i0t"}, 2), "refused:corner:recovery-after-switch")
+    add(mk_case({**base, (2, 1): "i0o", (2, 5): "p"}, 3), "refused:corner:recovery")
+    add(mk_case({**base, (2, 3): "i1e"}, 3, reset=1), "refused:corner:probe+reset")
+    add(mk_case(base, 2, reset=1, rst="i0u"), "refused:corner:reset")
+    add(mk_case(base, 2, reset=3, rst="i1t"), "refused:corner:reset-switched")
+    add(mk_case({**base, (1, 3): "n34", (2, 3): "n34"}, 3, hooks=True, gh={**base, (1, 3): "i1e", (2, 3): "i0r"}, pre=[0x8502],
+                post=[0x8501]), "refused:corner:hooked-attempt")
+    add(mk_case({**base, (1, 3): "n34"}, 3, hooks=True), "refused:corner:hooks-base-class")
+    for _ in range(ctx.pick(150, 2500)):
+        c, label = rand_case_refused(rng)
+        add(c, "refused:" + label)
     # 1. exhaustive small graphs
     if ctx.quick and not ctx.widened:
         for c in exhaustive_cases([1, 2, 0x7F], 3):
@@ -1214,13 +1368,23 @@ MANIFEST = {
                    "under --with-hooks (requests_only_dsc_reset_ping_hooks, skip_not_requested_any) and at most "
                    "sum_j 127^j * perProbe(j) requests (requests_bounded); the written rows are characterised (rows_match_report); "
                    "under an S3 session timeout completeness and the reported stack fail (witness theorems). "
+                   "Replies the client refuses (Ans.illegal switched; parse_pdu raises IllegalResponse) are part of the answer alphabet "
+                   "of both models on every path of the scanner (probe: `except Exception`, nothing recorded, recover_stack set; "
+                   "_recover_stack: exit 1; hooked attempt: the exception leaves set_session before the post hook; ECUReset: the "
+                   "exception leaves main): illegal_never_reported (a session answered only with refused replies is neither reported "
+                   "nor listed as identified, no row), illegal_recovers_stack (after a refused probe reply the next probe is prepared by "
+                   "a full stack recovery, so a silently switched session cannot leak: scan_state_tracking holds unchanged for every "
+                   "ECU), scan_sound / scan_complete unchanged, scan_complete_no_refused. "
                    "Tied to the code by running the real SessionsScanner.main() with a real ECU/UDSClient on an in-process "
                    "graph ECU under virtual time and comparing result, written session_transition rows, exit status, final "
                    "session and the exact request sequence seen by the ECU; the specification is evaluated on what the real "
                    "scanner reported. Stateful families (S3 timer by request count and by virtual time, security-locked "
                    "transitions, ResponsePending frames, scripted busyRepeatRequest / lost requests, max_retry 0..2, hooks, "
                    "reset) drive the real scanner against the stateful model on result, rows, exit, ECU and client session and "
-                   "the exact wire trace; every graph case is also run through the stateful model (twin check)."),
+                   "the exact wire trace; every graph case is also run through the stateful model (twin check). Graph ECUs answer "
+                   "edges, hooked attempts and the ECUReset with refused replies of four kinds (`7f 10 80` / `7f 10 23`, `50`, "
+                   "`7f 22 31` / `62 f1 86 03`, `50 07 ..`), switched or not; stateful ECUs garble replies by script (instead of "
+                   "handling / after handling the request, hook requests included)."),
     "level_note": ("Trusted: Lean kernel (axioms propext, Quot.sound, Classical.choice), the harness and its graph ECU, the "
                    "virtual-time loop. The ECU class is a deterministic session graph (answers depend on the current "
                    "session and on whether the session hook preceded the request); responsePending handling belongs to C04; OEM "
